@@ -10,6 +10,10 @@ import json, sys, io, contextlib, warnings, collections, copy, typing
 NT = {"P": collections.namedtuple("P", "x y"), "Q": collections.namedtuple("Q", "z")}
 
 
+class FaultyFlat:
+    pass
+
+
 class Custom:
     def __init__(self, *cs):
         self.cs = list(cs)
@@ -39,6 +43,9 @@ def typed_pair():
     return _TPAIR[0]
 
 
+SHARE = [None]          # when a dict: equal (shape, dtype) arrays of one value are one object
+
+
 def build_value(t):
     import numpy as np
     k = t[0]
@@ -62,11 +69,21 @@ def build_value(t):
     if k == "s":
         return str(t[1])
     if k == "a":
+        if SHARE[0] is not None:
+            # the SAME array object wherever the tree has an array of that shape and dtype (a tree built with [w, w], tied weights)
+            key = (tuple(t[1]), t[2])
+            if key not in SHARE[0]:
+                SHARE[0][key] = np.zeros(tuple(t[1]), dtype=t[2])
+            return SHARE[0][key]
         return np.zeros(tuple(t[1]), dtype=t[2])
     if k == "o":
         return Obj()
     if k == "K":
         return Packed(t[1], t[2])
+    if k == "M":        # a dict whose keys cannot be ordered against each other: JAX cannot flatten it
+        return {1: build_value(t[1][0]), "two": build_value(t[1][1])}
+    if k == "F":        # an instance of a registered node class whose flatten function raises
+        return FaultyFlat()
     raise KeyError(k)
 
 
@@ -90,6 +107,10 @@ def build_leaf(l):
         return typing.Union[tuple(build_leaf(x) for x in l[1])]
     if k == "arr":
         return getattr(jaxtyping, l[1])[typing.Any if (len(l) > 3 and l[3] == "any") else np.ndarray, l[2]]
+    if k == "parr":
+        # Shaped[<cat>[ndarray, dims], "2"], i.e. (cat)[ndarray, "2 " + dims], after a pickle round trip (what a worker process receives)
+        import pickle
+        return pickle.loads(pickle.dumps(jaxtyping.Shaped[getattr(jaxtyping, l[1])[np.ndarray, l[2]], "2"]))
     if k == "pytree":
         inner = build_leaf(l[1])
         return PyTree[inner] if l[2] is None else PyTree[inner, l[2]]
@@ -158,6 +179,9 @@ def main():
         import jaxtyping
         from jaxtyping import jaxtyped, PyTree
         jtu.register_pytree_node(Custom, lambda c: (c.cs, None), lambda aux, cs: Custom(*cs))
+        def _ff(n):
+            raise RuntimeError("this node cannot be flattened")
+        jtu.register_pytree_node(FaultyFlat, _ff, lambda aux, cs: FaultyFlat())
         jtu.register_pytree_node(Packed, lambda p: ((p.child,), (p.shape, p.dtype)), lambda aux, cs: Packed(aux[0], aux[1], cs[0]))
         out = []
         if req.get("prelude"):
@@ -180,7 +204,11 @@ def main():
                             else:
                                 lt = build_leaf(st["leaf"])
                                 ann = PyTree[lt] if st.get("structure") is None else PyTree[lt, st["structure"]]
-                            val = build_value(st["value"])
+                            SHARE[0] = {} if sess.get("share_arrays") else None
+                            try:
+                                val = build_value(st["value"])
+                            finally:
+                                SHARE[0] = None
                     except ValueError:
                         res.append({"build": "ValueError"}); continue
                     except BaseException as e:  # noqa
